@@ -61,8 +61,10 @@ def make_query(
     )
     values: List[QueryValue] = [module]
     if qualname is not None:
-        raw_query += " AND qualname LIKE ? || '%'"
-        values.append(qualname)
+        # A plain prefix test. LIKE would fold ASCII case and treat `_` and `%`
+        # in the prefix as wildcards (`my_func` would also select `myXfunc`).
+        raw_query += " AND substr(qualname, 1, length(?)) == ?"
+        values.extend([qualname, qualname])
     raw_query += """
     GROUP BY
         module, qualname, arg_types, return_type, yield_type
